@@ -20,6 +20,12 @@ F17 = "F17:tree-merge-flagged-particle-lingers"
 F17R = "F17:restart-with-flagged-particle"
 F18 = "C15-N1:particle-on-root-box-face-dropped-from-tree"
 N2 = "C15-N2:near-coincident-particles-unbounded-refinement"
+N3 = "C15-N3:variational-particles-inserted-into-tree"
+N4 = "C15-N4:multi-stage-integrator-uses-stale-tree"
+N5 = "C15-N5:non-finite-coordinate-hangs-boundary-check"
+N6 = "C15-N6:whfast-jacobi-arrays-not-updated-by-tree-update"
+N7 = "C15-N7:merge-product-on-face-lost-by-post-collision-tree-update"
+N8 = "C15-N8:whfast-open-boundary-N_active-crash"
 
 _rebound = None
 _lib = None
@@ -171,8 +177,41 @@ def gen_config(rng, kind="sim", allow_face=True):
         m = 0.0 if (massless_ok and rng.chance(0.1)) else rng.loguniform(1e-6, 1.0)
         r = rs * rng.choice([0.0, 0.002, 0.01, 0.03])
         parts.append([d2h(v) for v in pos + vel + [m, r]])
-    return dict(rs=d2h(rs), nx=nx, ny=ny, nz=nz, boundary=boundary, gravity=gravity, collision=collision,
-                resolve=resolve, dt=d2h(dt), omega=d2h(rng.uniform(0.2, 2.0)), t0=d2h(rng.uniform(0, 50.0)),
+    # ---- cross-cutting dimensions (BUILDERS-deepen "cross-cutting dimensions")
+    integ = rng.choice(["leapfrog", "leapfrog", "leapfrog", "sei", "ias15", "whfast"])
+    if boundary == "shear" and rng.chance(0.6):
+        integ = "sei"
+    dtsign = -1.0 if rng.chance(0.2) else 1.0
+    nact = rng.randint(1, n) if (rng.chance(0.3) and n >= 2) else -1
+    tptype = rng.randint(0, 1)
+    if nact >= 0:
+        for i in range(nact, n):           # massive and massless test particles
+            if collision == "none" and integ != "whfast" and rng.chance(0.5):
+                parts[i][6] = d2h(0.0)
+    if integ == "whfast":
+        for row in parts:
+            if h2d(row[6]) == 0.0:
+                row[6] = d2h(rng.loguniform(1e-6, 1.0))
+    if collision != "none" and rng.chance(0.15):
+        resolve = "callback"               # Python callable deciding which particle to remove
+    userops = []
+    if kind == "sim" and rng.chance(0.25):
+        for _ in range(rng.randint(1, 3)):
+            userops.append([rng.randint(1, 20), rng.choice(["add", "remove"]),
+                            [d2h(rng.uniform(-b / 2, b / 2) * 0.999) for b in (bx, by, bz)], rng.next() & 0xFFFF])
+    if integ == "whfast":
+        # WHFast keeps Jacobi coordinates (p_jh) across the mid-step boundary check / tree update: with a tree in use the
+        # array is reordered under it (known finding C15-N6, dedicated probe); here it drives the end-of-step boundary only
+        gravity, collision = "none", "none"
+    Gval = rng.choice([1.0, 1.0, 39.47841760435743, 6.674e-11])
+    soft = rng.choice([0.0, 0.01 * rs])
+    if gravity == "tree" and soft == 0.0:
+        Gval = 6.674e-11          # unsoftened close encounters would throw particles beyond 2^53 L (C15-N5)
+    extra = dict(integrator=integ, dtsign=dtsign, n_active=nact, tptype=tptype, userops=userops,
+                 G=d2h(Gval), soft=d2h(soft), af_probe=(gravity == "tree" and rng.chance(0.3)))
+    return dict(extra, rs=d2h(rs), nx=nx, ny=ny, nz=nz, boundary=boundary, gravity=gravity, collision=collision,
+                resolve=resolve, dt=d2h(dt), omega=d2h(rng.uniform(0.2, 2.0) * rng.choice([1, 1, 1, -1])),
+                t0=d2h(rng.choice([rng.uniform(0, 50.0), rng.uniform(0, 50.0), -rng.uniform(0, 50.0), rng.uniform(-1e6, 1e6)])),
                 steps=rng.randint(8, 60), parts=parts, seed=rng.next() & 0xFFFFFFFF,
                 upd_every=rng.choice([1, 1, 1, 2, 3]), posmode=posmode, face=face,
                 restart_at=(rng.randint(1, 12) if rng.chance(0.35) else 0), restart_kind=rng.choice(["copy", "file"]),
@@ -184,16 +223,18 @@ def make_sim(cfg, tree=True):
     sim = _rebound.Simulation()
     rs = h2d(cfg["rs"])
     sim.configure_box(rs, cfg["nx"], cfg["ny"], cfg["nz"])
-    sim.integrator = "leapfrog"
+    sim.integrator = cfg.get("integrator", "leapfrog")
     sim.boundary = cfg["boundary"]
     sim.gravity = cfg["gravity"] if tree else "none"
     sim.collision = cfg["collision"] if tree else "none"
-    sim.collision_resolve = cfg["resolve"]
-    sim.dt = h2d(cfg["dt"])
+    set_resolve(sim, cfg)
+    sim.dt = h2d(cfg["dt"]) * cfg.get("dtsign", 1.0)
+    sim.G = h2d(cfg["G"]) if "G" in cfg else 1.0
+    sim.testparticle_type = cfg.get("tptype", 0)
     sim.ri_sei.OMEGA = h2d(cfg["omega"])
     sim.t = h2d(cfg["t0"])
     sim.opening_angle2 = h2d(cfg["theta2"])
-    sim.softening = 0.01 * rs
+    sim.softening = h2d(cfg["soft"]) if "soft" in cfg else 0.01 * rs
     sim.rand_seed = cfg["seed"]
     tree_cfg = tree and (cfg["gravity"] == "tree" or cfg["collision"] in ("tree", "linetree"))
     if cfg.get("track_energy") and cfg["boundary"] == "open" and not tree_cfg:
@@ -201,6 +242,17 @@ def make_sim(cfg, tree=True):
     _clib.reb_simulation_set_collision_resolve  # (resolve set through the property above)
     sim.save_messages = 1 if hasattr(sim, "save_messages") else 0
     return sim
+
+
+def set_resolve(sim, cfg):
+    if cfg["resolve"] != "callback":
+        sim.collision_resolve = cfg["resolve"]
+        return
+    rng = SplitMix(cfg["seed"] ^ 0xc0111de)
+
+    def resolver(simp, col):      # 0 keep both, 1 remove p1, 2 remove p2, 3 remove both
+        return rng.choice([0, 1, 2, 3, 0])
+    sim.collision_resolve = resolver
 
 
 def add_parts(sim, cfg):
@@ -482,10 +534,93 @@ def restart(sim, cfg):
         finally:
             if os.path.exists(fn):
                 os.remove(fn)
-    s2.collision_resolve = cfg["resolve"]      # function pointers are not part of the saved state
+    set_resolve(s2, cfg)      # function pointers are not part of the saved state
     s2.save_messages = 1
     messages(s2)
     return s2
+
+
+def sim_dimensions(cfg):
+    """names of the cross-cutting dimensions a run exercises"""
+    d = ["integrator:" + cfg.get("integrator", "leapfrog"), "boundary:" + cfg["boundary"]]
+    g, c = cfg["gravity"] == "tree", cfg["collision"] in ("tree", "linetree")
+    d.append("tree_use:" + ("both" if g and c else "gravity_only" if g else "collisions_only" if c else "no_tree"))
+    if cfg["collision"] != "none":
+        d.append("resolver:" + cfg["resolve"])
+    if cfg.get("dtsign", 1.0) < 0:
+        d.append("time:dt<0")
+    na = cfg.get("n_active", -1)
+    if na >= 0:
+        d.append("roles:N_active<N" if na < len(cfg["parts"]) else "roles:N_active=N")
+        d.append("roles:testparticle_type%d" % cfg.get("tptype", 0))
+        tm = [h2d(r[6]) for r in cfg["parts"][na:]]
+        if any(m == 0.0 for m in tm):
+            d.append("roles:massless_test_particles")
+        if any(m != 0.0 for m in tm):
+            d.append("roles:massive_test_particles")
+        if na == 1:
+            d.append("roles:single_active_body")
+    if any(h2d(r[6]) == 0.0 for r in cfg["parts"][:na if na >= 0 else None]):
+        d.append("roles:zero_mass_active")
+    if len({cfg["nx"], cfg["ny"], cfg["nz"]}) > 1:
+        d.append("geometry:nonsquare_root_layout")
+    if cfg.get("face"):
+        d.append("geometry:particles_on_faces")
+    if "G" in cfg and h2d(cfg["G"]) != 1.0:
+        d.append("options:G!=1")
+    if "soft" in cfg and h2d(cfg["soft"]) == 0.0:
+        d.append("options:softening=0")
+    if cfg.get("theta2") and h2d(cfg["theta2"]) == 0.0:
+        d.append("options:opening_angle=0")
+    if cfg.get("af_probe"):
+        d.append("callbacks:additional_forces")
+    if len(cfg["parts"]) > 128:
+        d.append("scale:N>128")
+    if len(cfg["parts"]) > 512:
+        d.append("scale:N>512")
+    return d
+
+
+def install_af_probe(sim, cfg, out):
+    """additional_forces is called right after every gravity evaluation: the moment the tree is in use.  The probe
+    recomputes the aggregation and containment clauses from the tree as it is then."""
+    st = dict(calls=0, errors=[])
+
+    def af(simp):
+        st["calls"] += 1
+        out.inc("tree_in_use_probes")
+        try:
+            if sim.N == 0 or len(st["errors"]) > 0:
+                return
+            parts = get_parts(sim)
+            cells = get_dump(sim)
+            if cells is None:
+                st["errors"].append((st["calls"], "the tree cannot be walked"))
+                return
+            errs = [e for e in check_tree(cfg, cells, parts, True) if e[0] in ("mass", "com", "containment", "missing", "duplicate")]
+            if errs and not any(f18_class(cfg, p) for p in parts):
+                st["errors"].append((st["calls"], errs[0][1]))
+        except Exception as e:      # never let an exception escape into the C caller
+            st["errors"].append((st["calls"], "probe failed: %r" % (e,)))
+    sim.additional_forces = af
+    return st
+
+
+def user_op(sim, cfg, op, next_hash, out):
+    """the user edits the particle set between two steps"""
+    _, what, pos, seed = op
+    if what == "add":
+        p = _rebound.Particle()
+        p.x, p.y, p.z = [h2d(t) for t in pos]
+        p.m, p.r = 1e-3, 0.0
+        p.hash = next_hash[0]
+        next_hash[0] += 1
+        _clib.reb_simulation_add(ctypes.byref(sim), p)
+        out.inc("dim:history:user_add")
+    else:
+        _clib.reb_simulation_remove_particle.restype = ctypes.c_int
+        _clib.reb_simulation_remove_particle(ctypes.byref(sim), ctypes.c_int(seed % sim.N), ctypes.c_int(0))
+        out.inc("dim:history:user_remove")
 
 
 def run_sim(cfg, out, model_budget):
@@ -502,8 +637,18 @@ def run_sim(cfg, out, model_budget):
     dt = h2d(cfg["dt"])
     if cfg.get("face") and any(f18_class(cfg, p) for p in get_parts(sim)):
         out.notes["f18_seen"] = True
-    free_flight = cfg["gravity"] == "none" and cfg["collision"] == "none"
-    key = (cfg["boundary"], cfg["gravity"], cfg["collision"], cfg["resolve"], nx, ny, nz, min(len(cfg["parts"]), 50))
+    integ = cfg.get("integrator", "leapfrog")
+    if cfg.get("n_active", -1) >= 0:
+        sim.N_active = cfg["n_active"]
+    if integ == "ias15":
+        cfg = dict(cfg, steps=min(cfg["steps"], 6))       # without forces the adaptive step grows 4x per step
+    free_flight = cfg["gravity"] == "none" and cfg["collision"] == "none" and integ in ("leapfrog", "ias15")
+    key = (cfg["boundary"], cfg["gravity"], cfg["collision"], cfg["resolve"], nx, ny, nz, min(len(cfg["parts"]), 50),
+           integ, cfg.get("dtsign", 1.0) < 0, cfg.get("n_active", -1) >= 0)
+    for dname in sim_dimensions(cfg):
+        out.inc("dim:" + dname)
+    probe = install_af_probe(sim, cfg, out) if cfg.get("af_probe") else None
+    next_hash = [len(cfg["parts"]) + 1]
     if tree_on and sim.N > 0:
         evaluate_tree(cfg, sim, out, "after construction", model_budget[0] > 0, 0)
         model_budget[0] -= 1
@@ -522,6 +667,9 @@ def run_sim(cfg, out, model_budget):
             if _marker[0] and os.path.exists(_marker[0]):
                 os.remove(_marker[0])
             out.inc("restarts")
+            out.inc("dim:history:restart_" + cfg["restart_kind"])
+            if probe is not None:
+                probe = install_af_probe(sim, cfg, out)
             if tree_on:
                 _clib.reb_boundary_check(ctypes.byref(sim))
                 _clib.reb_simulation_update_tree(ctypes.byref(sim))
@@ -530,10 +678,26 @@ def run_sim(cfg, out, model_budget):
                     model_budget[0] -= 1
                 if any(v[0] != F17 for v in out.viol):
                     break
-        before = {p["h"]: p for p in get_parts(sim)}
+        for op in cfg.get("userops", []):
+            if op[0] == step and sim.N > 0:
+                user_op(sim, cfg, op, next_hash, out)
+        if near_refused(messages(sim)) or sim.N == 0:
+            break
+        before = {p["h"]: p for p in get_parts(sim) if p["y"] == p["y"]}
         _clib.reb_simulation_step(ctypes.byref(sim))
         ms = messages(sim)
         after = get_parts(sim)
+        dt = sim.dt_last_done
+        if cfg.get("n_active", -1) >= 0 and sim.N_active > sim.N:
+            out.viol.append(("n-active-exceeds-n", "after step %d N_active=%d > N=%d" % (step, sim.N_active, sim.N), dict(cfg=cfg, step=step)))
+        if probe is not None and probe["errors"]:
+            e = probe["errors"][0]
+            k = N4 if integ == "ias15" else "tree-in-use-stale"
+            out.viol.append((k, "step %d: when the gravity routine used the tree (additional_forces call %d of the step) %s" % (step, e[0], e[1]),
+                             dict(cfg=cfg, step=step)))
+            probe["errors"].clear()
+            if k != N4:
+                break
         out.inc("steps")
         if cfg.get("face") and not out.notes.get("f18_seen") and any(f18_class(cfg, p) for p in after):
             out.notes["f18_seen"] = True
@@ -542,17 +706,23 @@ def run_sim(cfg, out, model_budget):
             break
         for kind, text in ms:
             if kind == "e":
-                out.viol.append(("step-error", "step %d reported: %s" % (step, text), dict(cfg=cfg, step=step)))
+                k = "step-error"
+                if "outside of box boundaries" in text and cfg["resolve"] == "merge" and cfg["collision"] in ("tree", "linetree"):
+                    # signature of C15-N7: every particle that vanished in this step sat exactly on a box face
+                    gone = [before[h] for h in before if h not in {q["h"] for q in after}]
+                    if gone and all(any(abs(g[a]) == L[a] / 2. for a in "xyz") for g in gone):
+                        k = N7     # merge product rounded one ulp outside the box, re-inserted without a wrap
+                out.viol.append((k, "step %d reported: %s" % (step, text), dict(cfg=cfg, step=step)))
         # ---- bare step boundary: flags, box membership, identity
         flagged = [i for i, p in enumerate(after) if not p["y"] == p["y"]]
         if flagged:
-            k = F17 if (cfg["resolve"] == "merge" and cfg["collision"] in ("tree", "linetree")) else "flagged-particle-at-step-boundary"
+            k = F17 if (cfg["resolve"] in ("merge", "callback") and cfg["collision"] in ("tree", "linetree")) else "flagged-particle-at-step-boundary"
             if not any(v[0] == k for v in out.viol):
                 out.viol.append((k, "after step %d particle(s) %s flagged for removal (y=NaN) are still in the particle array (N=%d)"
                                  % (step, flagged[:5], len(after)), dict(cfg=cfg, step=step)))
             out.inc("f17_observed")
         live = [p for p in after if p["y"] == p["y"]]
-        merging_cfg = cfg["collision"] != "none" and cfg["resolve"] == "merge"
+        merging_cfg = cfg["collision"] != "none" and cfg["resolve"] in ("merge", "callback")
         hs = [p["h"] for p in after]
         if len(set(hs)) != len(hs):
             out.viol.append(("duplicate-particle", "after step %d a particle appears twice in the array" % step, dict(cfg=cfg, step=step)))
@@ -563,7 +733,7 @@ def run_sim(cfg, out, model_budget):
             if outp:
                 out.viol.append(("outside-after-step", "after step %d particle(s) with hash %s lie outside the box (boundary %s)"
                                  % (step, outp[:5], cfg["boundary"]), dict(cfg=cfg, step=step)))
-        merging = cfg["collision"] != "none" and cfg["resolve"] == "merge"
+        merging = cfg["collision"] != "none" and cfg["resolve"] in ("merge", "callback")
         if cfg["boundary"] in ("periodic", "shear") and not merging:
             if sorted(hs) != sorted(before):
                 lost = sorted(set(before) - set(hs))
@@ -612,7 +782,7 @@ def run_sim(cfg, out, model_budget):
                 evaluate_tree(cfg, sim, out, "after step %d + tree update" % step, want, step)
                 if want:
                     model_budget[0] -= 1
-        if any(v[0] != F17 for v in out.viol):
+        if any(v[0] not in (F17, N4) for v in out.viol):
             break
         if sim.N == 0:
             break
@@ -640,6 +810,9 @@ def gen_far(rng, cfg):
             else:
                 v = rng.normal() * b
             row.append(v)
+        if rng.chance(0.02):
+            a = rng.randint(0, 2)
+            row[a] = rng.uniform(-3e4, 3e4) * rs * (nx, ny, nz)[a]      # |x| >> L: tens of thousands of wraps
         if cfg["face"] and rng.chance(0.3):
             a = rng.randint(0, 2)
             b = rs * (nx, ny, nz)[a]
@@ -669,6 +842,16 @@ def run_boundary(cfg, rows, out, with_tree):
         out.notes["f18_seen"] = True
     bnd = cfg["boundary"]
     out.inc("boundary_calls")
+    out.inc("dim:boundary_direct:" + bnd + ("+tree" if with_tree else ""))
+    if bnd == "shear":
+        t0v = h2d(cfg["t0"])
+        out.inc("dim:time:shear_t<0" if t0v < 0 else "dim:time:shear_t>=0")
+        if abs(t0v) > 1e3:
+            out.inc("dim:time:shear_|t|_huge")
+    if len({nx, ny, nz}) > 1:
+        out.inc("dim:geometry:nonsquare_root_layout")
+    if cfg.get("face"):
+        out.inc("dim:geometry:particles_on_faces")
     key = (bnd, nx, ny, nz, with_tree)
     rep = dict(cfg=cfg, rows=[[d2h(v) for v in r] for r in rows], with_tree=with_tree)
     hx3 = [cfg["rs"]]
@@ -693,7 +876,7 @@ def run_boundary(cfg, rows, out, with_tree):
                 ks.append(kq)
                 if inside0 and v != r0[a]:
                     out.viol.append(("moved-inside-particle", "%s=%r was inside the box but was changed to %r" % (nm, r0[a], v), rep))
-                if abs(q - kq) > Fraction(1, 10 ** 12) * (1 + abs(kq)):
+                if abs(q - kq) > Fraction(1, 10 ** 12) * (1 + abs(kq)) + Fraction(4, 10 ** 16) * kq * kq:
                     out.viol.append(("not-whole-box-lengths", "%s of particle %d: %r -> %r is not a whole number of box lengths %r" % (nm, i, r0[a], v, L), rep))
                 if kq != 0:
                     out.inc("wraps", abs(kq))
@@ -710,7 +893,10 @@ def run_boundary(cfg, rows, out, with_tree):
             elif any(abs(p["v" + a] - r0[3 + j]) != 0 for j, a in enumerate("xyz")):
                 out.viol.append(("velocity-changed", "periodic wrap changed a velocity", rep))
         # model line
-        fuel = 64
+        kk = [max(int(abs(r[a]) / Ls[a]) for r in rows) for a in range(3)]
+        fuel = max(kk[0], kk[1] + 4 * kk[0], kk[2]) + 8
+        if max(kk) > 100:
+            out.inc("dim:geometry:far_wraps(|x|>100L)")
         if bnd == "periodic":
             line = " ".join(["periodic"] + bxs + [str(fuel)] + [d2h(v) for r in rows for v in r[:3]])
             exp = "ok " + " ".join(d2h(p[a]) for p in after for a in "xyz")
@@ -825,6 +1011,7 @@ def run_scramble(cfg, out):
             return
         post = get_parts(sim)
         out.inc("update_walk_calls")
+        out.inc("dim:update_walk:scramble")
         for kk, v in kinds.items():
             out.inc("scramble_" + kk, v)
         # ---- the statement: exactly the non-flagged in-box particles remain, each once, coordinates untouched
@@ -858,6 +1045,67 @@ def run_scramble(cfg, out):
     out.evals.append((key, len(cfg["parts"])))
 
 
+# ----------------------------------------------------------------------------- probes of unsupported corners
+def run_probe(job, out):
+    what = job["probe"]
+    out.inc("dim:probe:" + what)
+    sim = _rebound.Simulation()
+    sim.configure_box(3.0, 2, 1, 1)
+    sim.integrator = "leapfrog"
+    sim.dt = 0.01
+    if what in ("x=+inf periodic", "x=-inf shear"):
+        # a non-finite coordinate: `while (x > L/2) x -= L` never ends.  Expected: the parent sees a hang.
+        sim.boundary = "periodic" if "periodic" in what else "shear"
+        sim.add(m=1., x=0.1, y=0.2, z=0.3)
+        sim.add(m=1., x=-0.1, y=-0.2, z=0.3)
+        set_parts(sim, [[float("inf") if "+inf" in what else float("-inf"), 0.2, 0.3, 0, 0, 0], [-0.1, -0.2, 0.3, 0, 0, 0]])
+        _clib.reb_boundary_check(ctypes.byref(sim))
+        p = get_parts(sim)[0]
+        if not inside_box(dict(rs=d2h(3.0), nx=2, ny=1, nz=1), p):
+            out.viol.append(("nonfinite-left-outside", "reb_boundary_check returned with x=%r outside the box" % p["x"], job))
+    elif what == "x=nan periodic":
+        sim.boundary = "periodic"
+        sim.gravity = "tree"
+        sim.add(m=1., x=0.1, y=0.2, z=0.3)
+        sim.add(m=1., x=-0.1, y=-0.2, z=0.3)
+        set_parts(sim, [[float("nan"), 0.2, 0.3, 0, 0, 0], [-0.1, -0.2, 0.3, 0, 0, 0]])
+        _clib.reb_boundary_check(ctypes.byref(sim))
+        _clib.reb_simulation_update_tree(ctypes.byref(sim))
+        out.notes["nan_x"] = "N=%d leaves=%s" % (sim.N, [I[3] for D, I in (get_dump(sim) or []) if I[3] >= 0])
+    elif what == "whfast+open+tree":
+        # the mid-step tree update removes / reorders particles while WHFast holds Jacobi coordinates indexed by the old order
+        sim = _rebound.Simulation()
+        sim.configure_box(10.0)
+        sim.integrator = "whfast"
+        sim.dt = 0.1
+        sim.boundary = "open"
+        sim.gravity = "tree"
+        sim.add(m=1., x=0.1, y=0.2, z=0.3)
+        sim.add(m=1e-3, x=1., y=0., z=0.1, vy=1.)
+        sim.add(m=1e-3, x=4.9, y=0.5, z=0.2, vx=30.)
+        _clib.reb_simulation_step(ctypes.byref(sim))
+        ps = get_parts(sim)
+        if len(ps) != 2 or any(not (p["x"] == p["x"] and p["y"] == p["y"]) for p in ps):
+            out.viol.append((N6, "WHFast with tree gravity and an open boundary: after the step in which one particle left the box "
+                             "N=%d, x=%s" % (len(ps), [p["x"] for p in ps]), job))
+    elif what == "variational+collision tree":
+        # variational particles are not particles: they must not be put into the tree
+        sim.gravity = "basic"
+        sim.collision = "tree"
+        sim.add(m=1., x=0.6, y=0.5, z=0.3, r=0.05)
+        sim.add(m=1e-3, x=-1.0, y=-0.5, z=0.2, r=0.05)
+        sim.add(m=1e-3, x=-0.4, y=0.7, z=-0.2, r=0.05)
+        _clib.reb_simulation_add_variation_1st_order.restype = ctypes.c_int
+        _clib.reb_simulation_add_variation_1st_order(ctypes.byref(sim), ctypes.c_int(-1))
+        ms = messages(sim)
+        nreal = sim.N - sim.N_var
+        leaves = sorted(I[3] for D, I in (get_dump(sim) or []) if I[3] >= 0)
+        if leaves != list(range(nreal)) or any(k == "e" for k, _ in ms):
+            out.viol.append((N3, "after add_variation (N=%d, N_var=%d) the leaves of the tree hold the indices %s instead of the %d real "
+                             "particles%s" % (sim.N, sim.N_var, leaves, nreal, ("; reported: " + ms[0][1]) if ms else ""), job))
+    out.evals.append((("probe", what), 2))
+
+
 # ----------------------------------------------------------------------------- forked workers
 _marker = [None]
 
@@ -876,6 +1124,8 @@ def worker(job, path):
             run_fresh(job["cfg"], out)
         elif kind == "scramble":
             run_scramble(job["cfg"], out)
+        elif kind == "probe":
+            run_probe(job, out)
     except Exception as e:   # python-level failure inside the worker = infrastructure
         import traceback
         out.notes["exception"] = traceback.format_exc()[-1500:]
@@ -884,7 +1134,7 @@ def worker(job, path):
         # from NaN (crash, or a write outside tree_root and a particle left in no leaf)
         sym = ("tree-", "step-error", "update-error", "duplicate-particle", "walk-theta0", "flagged-particle", "count-changed", "outside-after-step")
         out.viol = [((F17R if k.startswith(sym) else k), w, r) for k, w, r in out.viol]
-    if job["cfg"].get("face") and out.notes.get("f18_seen"):
+    if job.get("cfg", {}).get("face") and out.notes.get("f18_seen"):
         # once a particle sits in a cell that does not contain it the next update can damage tree and heap
         # (known finding C15-N1): everything but F17 observed in such a run is attributed to it
         # (tree / particle-array symptoms only; the boundary oracles keep their own keys)
@@ -967,7 +1217,7 @@ def run_jobs(c, jobs, par=4, timeout=120):
             j, path, t0 = running[pid]
             r, status = os.waitpid(pid, os.WNOHANG)
             if r == 0:
-                if time.time() - t0 > timeout:
+                if time.time() - t0 > jobs[j].get("timeout", timeout):
                     os.kill(pid, signal.SIGKILL)
                     os.waitpid(pid, 0)
                     del running[pid]
@@ -1063,6 +1313,8 @@ def run(c):
         cfg["rounds"] = rng.randint(1, 4)
         cfg["boundary"] = rng.choice(["periodic", "open", "shear", "none"])
         jobs.append(dict(kind="scramble", cfg=cfg))
+    for what in ("x=+inf periodic", "x=-inf shear", "x=nan periodic", "variational+collision tree", "whfast+open+tree"):
+        jobs.append(dict(kind="probe", probe=what, timeout=4))
     # interleave the kinds so that every batch exercises all of them
     order = list(range(len(jobs)))
     c.rng.fork().shuffle(order)
@@ -1079,6 +1331,14 @@ def run(c):
                 raise Infra("worker failed: %s" % (res or {}).get("notes", {}).get("exception"))
             if res.get("crash") is not None or res.get("hang"):
                 what = "the real code %s on a generated %s case" % ("crashed (signal %s)" % res.get("crash") if res.get("crash") is not None else "did not return within the time limit", job["kind"])
+                if job["kind"] == "probe":
+                    st["totals"]["dim:probe:" + job["probe"]] = st["totals"].get("dim:probe:" + job["probe"], 0) + 1
+                    if res.get("hang") and "inf" in job["probe"]:
+                        c.violation(N5, "reb_boundary_check does not return for a particle with %s (`while (x > L/2) x -= L` cannot make progress)" % job["probe"], job)
+                    else:
+                        c.violation("probe-crash", what + " (%s)" % job["probe"], job)
+                    c.count(("probe", job["probe"]), nontrivial=True)
+                    continue
                 cf = job["cfg"]
                 f18 = cf.get("face") and (job["kind"] == "boundary" or any_f18(cf))
                 if os.environ.get("C15_DEBUG"):
@@ -1093,6 +1353,9 @@ def run(c):
                         # the model agrees: refinement does not stop within any fuel
                         lines.append(model_line(cf, [dict(x=h2d(r[0]), y=h2d(r[1]), z=h2d(r[2]), m=h2d(r[6])) for r in cf["parts"]], False))
                         expect.append("err fuel %d" % pair[1]); meta.append(dict(where="unbounded refinement (model: fuel exhausted)", exact=True))
+                elif job["kind"] == "sim" and res.get("crash") is not None and cf.get("integrator") == "whfast" and \
+                        cf["boundary"] == "open" and cf.get("n_active", -1) >= 0:
+                    c.violation(N8, what + ": WHFast, open boundary, N_active set (removal by swap-with-last does not maintain N_active)", job)
                 elif res.get("marker") == "restart-with-flagged-particle":
                     c.violation(F17R, what + " while copying / reloading a simulation that holds a particle flagged for removal", job)
                 else:
@@ -1129,7 +1392,12 @@ def run(c):
     c.cov["disagreements"] = st["nd"]
     c.cov["bitwise_mismatches_within_tolerance"] = st["nbit"]
     c.cov["shape_differences_explained_by_particle_on_cell_face"] = st["ties"]
-    c.cov["measured"] = st["totals"]
+    dims = {k[4:]: v for k, v in sorted(st["totals"].items()) if k.startswith("dim:")}
+    c.cov["dimensions"] = dims
+    c.cov["measured"] = {k: v for k, v in st["totals"].items() if not k.startswith("dim:")}
+    for need in REQUIRED_DIMENSIONS:
+        if dims.get(need, 0) == 0:
+            c.broken.append("dimension %s not covered" % need)
     c.cov["max_tree_depth_fresh"] = st["depth"]
     if st["nd"]:
         c.corr_break("%d of %d model/implementation lines differ; first: %s" % (st["nd"], st["nlines"], st["first"]["meta"]["where"]), st["first"])
@@ -1246,6 +1514,27 @@ def never_separating_pair(cfg, pos):
                     if best is None or hi < best[1]:
                         best = (lo, hi)
     return best
+
+
+REQUIRED_DIMENSIONS = [
+    "integrator:leapfrog", "integrator:sei", "integrator:ias15", "integrator:whfast",
+    "tree_use:gravity_only", "tree_use:collisions_only", "tree_use:both",
+    "boundary:open", "boundary:periodic", "boundary:shear",
+    "boundary_direct:open", "boundary_direct:periodic", "boundary_direct:shear",
+    "boundary_direct:open+tree", "boundary_direct:periodic+tree", "boundary_direct:shear+tree",
+    "resolver:hardsphere", "resolver:merge", "resolver:callback",
+    "roles:N_active<N", "roles:testparticle_type0", "roles:testparticle_type1", "roles:massless_test_particles",
+    "roles:massive_test_particles", "roles:zero_mass_active",
+    "time:dt<0", "time:shear_t<0", "time:shear_t>=0", "time:shear_|t|_huge",
+    "callbacks:additional_forces",
+    "history:restart_copy", "history:restart_file", "history:user_add", "history:user_remove",
+    "geometry:nonsquare_root_layout", "geometry:particles_on_faces", "geometry:far_wraps(|x|>100L)",
+    "options:G!=1", "options:softening=0", "options:opening_angle=0",
+    "scale:N>128",
+    "probe:x=+inf periodic", "probe:x=-inf shear", "probe:x=nan periodic", "probe:variational+collision tree",
+    "probe:whfast+open+tree",
+    "update_walk:scramble",
+]
 
 
 def any_f18(cfg):
